@@ -113,7 +113,7 @@ type c04Place struct {
 }
 
 func TestVerifC04Verdicts(t *testing.T) {
-	vRun(t, "C04.verdicts", vCount(300, 8000), func(c *vCase) {
+	vRun(t, "C04.verdicts", vCount(300, 40000), func(c *vCase) {
 		c.Bubble(func() {
 			nVal := c.Range(1, 4)
 			places := make([]c04Place, nVal)
